@@ -6,6 +6,7 @@
 #include <algorithm>
 #include <functional>
 #include <utility>
+#include <iterator>
 
 extern "C" {
 extern int vf_sp_violation;
@@ -30,6 +31,7 @@ long k_rotate(T*, int, int); long k_rotate_copy(T*, int, int, T*); long k_shift_
 long k_unique(T*, int); long k_unique_copy(T*, int, T*); long k_partition_copy(T*, int, T*, T*, unsigned, int, long*);
 long k_merge(T*, int, T*, int, T*); long k_set_difference(T*, int, T*, int, T*); long k_set_intersection(T*, int, T*, int, T*);
 long k_set_symmetric_difference(T*, int, T*, int, T*); long k_set_union(T*, int, T*, int, T*);
+long k_rev_find(T*, int, T const*); long k_rev_copy(T*, int, T*); long k_rev_dist(T*, int, long); int k_back_insert_copy_if(T*, int, T*, unsigned, int); int k_back_insert_merge(T*, int, T*, int, T*); void k_swap(T*, T*);
 }
 
 // std-tagged forward-iterator view used for some oracles: selects libstdc++'s plain forward-iterator implementation
@@ -371,3 +373,28 @@ MERGELIKE(set_difference, LN)
 MERGELIKE(set_intersection, (LN < LM ? LN : LM))
 MERGELIKE(set_symmetric_difference, LN + LM)
 MERGELIKE(set_union, LN + LM)
+
+// ---------------------------------------------------------------- iterator adaptors (reverse_iterator, back_insert_iterator, next/distance) and swap
+#if IT == 0
+Q q_rev_find() { T* a = sym(LN); T* v = val(); long e = std::find(std::reverse_iterator<T*>(a + LN), std::reverse_iterator<T*>(a), *v).base() - a; vf_assert(k_rev_find(a, LN, v) == e, "find over reverse_iterator: base() == std"); }
+Q q_rev_copy() { T* a = sym(LN); T* d = sym(LN); T* d2 = dup(d, LN); long r = k_rev_copy(a, LN, d); long e = std::copy(std::make_reverse_iterator(a + LN), std::make_reverse_iterator(a), d2) - d2; vf_assert(r == e, "copy over reverse_iterator: returned iterator == std"); same(d, d2, LN, "copy over reverse_iterator: destination == std"); }
+Q q_rev_dist()
+{
+    T* a = sym(LN); long k = (long)vf_nd_u64(); vf_assume(k >= 0 && k <= LN);
+    auto rb = std::reverse_iterator<T*>(a + LN); auto it = std::next(rb, k); long e = (std::distance(rb, it) << 8) | (it.base() - a);
+    vf_assert(k_rev_dist(a, LN, k) == e, "next/distance over reverse_iterator == std");
+}
+Q q_back_insert_copy_if()
+{
+    T* a = sym(LN); PRED; long cnt = std::count_if(a, a + LN, P); T* d = (T*)vf_alloc((uint64_t)cnt * sizeof(T)); T* e = (T*)vf_alloc((uint64_t)LN * sizeof(T));
+    long en = std::copy_if(a, a + LN, e, P) - e; int r = k_back_insert_copy_if(a, LN, d, pm, pp); // destination holds exactly the elements that must be appended
+    vf_assert(r == en, "copy_if into back_inserter: number of push_back calls == std"); same(d, e, (int)en, "copy_if into back_inserter: appended elements == std");
+}
+Q q_back_insert_merge()
+{
+    T* a = sym(LN); T* b = sym(LM); SORTED(a, LN); SORTED(b, LM); T* d = (T*)vf_alloc((uint64_t)(LN + LM) * sizeof(T)); T* e = (T*)vf_alloc((uint64_t)(LN + LM) * sizeof(T));
+    std::merge(sf(a), sf(a + LN), sf(b), sf(b + LM), sf(e) COMMA_C); int r = k_back_insert_merge(a, LN, b, LM, d);
+    vf_assert(r == LN + LM, "merge into back_insert_iterator: number of push_back calls"); same(d, e, LN + LM, "merge into back_insert_iterator: appended elements == std");
+}
+Q q_swap() { T* x = val(); T* y = val(); unsigned bx = bits(*x), by = bits(*y); k_swap(x, y); vf_assert(bits(*x) == by && bits(*y) == bx, "swap exchanges the two values"); }
+#endif
